@@ -296,10 +296,12 @@ def digitsVal (bs : Bytes) : Nat := bs.foldl (fun acc b => acc * 10 + (b.toNat -
 
 /-- Rust `str::parse::<uN>()`: optional `+`, at least one digit, digits only,
 value < 2^bits. -/
+def stripPlus : Bytes → Bytes
+  | 43 :: r => r
+  | s => s
+
 def parseUnsigned (bits : Nat) (s : Bytes) : Option Nat :=
-  let ds := match s with
-    | 43 :: r => r
-    | s => s
+  let ds := stripPlus s
   if ds.isEmpty || !ds.all isDigit then none
   else
     let v := digitsVal ds
@@ -317,9 +319,16 @@ def parseSigned (bits : Nat) (s : Bytes) : Option Int :=
     if neg then (if v ≤ 2 ^ (bits - 1) then some (-(v : Int)) else none)
     else (if v < 2 ^ (bits - 1) then some (v : Int) else none)
 
-/-- decimal rendering, as `to_string()` on an integer -/
-def natDec (n : Nat) : Bytes := asciiBytes (toString n)
-def intDec (i : Int) : Bytes := asciiBytes (toString i)
+/-- decimal digits of `n`, most significant first (fuel ≥ number of digits) -/
+def natDecAux : Nat → Nat → Bytes
+  | 0, _ => []
+  | f + 1, n => if n < 10 then [UInt8.ofNat (48 + n)] else natDecAux f (n / 10) ++ [UInt8.ofNat (48 + n % 10)]
+
+/-- decimal rendering, as `to_string()` on an unsigned integer -/
+def natDec (n : Nat) : Bytes := natDecAux (n + 1) n
+
+/-- decimal rendering, as `to_string()` on a signed integer -/
+def intDec (i : Int) : Bytes := if i < 0 then 45 :: natDec (-i).toNat else natDec i.toNat
 
 /-- ASCII lower-casing (used only where the code compares with ASCII literals) -/
 def asciiLower (bs : Bytes) : Bytes :=
